@@ -16,10 +16,10 @@ CAT_ATOMS = {
 NUM_ATOMS = {
     "x": "x", "z": "z", "w": "w", "y": "y",
     "scale(x)": "x", "center(z)": "z", "standardize(w)": "w", "center(x)": "x", "scale(z)": "z",
-    "bs(z, df=3)": "z", "poly(x, 2)": "x", "bs(x, df=4)": "x", "poly(z, 3)": "z",
+    "bs(z, df=3)": "z", "poly(x, 2)": "x", "bs(x, df=4)": "x", "poly(z, 3)": "z", "poly(z, 2)": "z",
     "np.exp(x)": "x", "I(z ** 2)": "z", "{w + 1}": "w",
 }
-NUM_WIDTH = {"bs(z, df=3)": 3, "poly(x, 2)": 2, "bs(x, df=4)": 4, "poly(z, 3)": 3}
+NUM_WIDTH = {"bs(z, df=3)": 3, "poly(x, 2)": 2, "bs(x, df=4)": 4, "poly(z, 3)": 3, "poly(z, 2)": 2}
 
 
 _CODED = re.compile(r"^[CTS]\((\w+)\s*[,)]")
